@@ -30,6 +30,7 @@ fn main() -> ExitCode {
     match args[1].as_str() {
         "check" if args.len() >= 4 => report::supervise(&args[2], &args[3]),
         "worker" if args.len() >= 4 => report::worker(&args[2], &args[3]),
+        "runone" if args.len() >= 6 => report::runone(&args[2], args[3].parse().unwrap_or(0), &args[4], &args[5]),
         "replay" if args.len() >= 3 => report::replay_file(&args[2]),
         "selftest-lp" if args.len() >= 4 => report::selftest_lp(args[2].parse().unwrap_or(1000), args[3].parse().unwrap_or(1)),
         "trace" if args.len() >= 4 => report::trace(&args[2], args[3].parse().unwrap_or(0)),
